@@ -23,6 +23,34 @@ def main():
     assert [(astutil.src(a), b) for a, b in gs] == [("a", False)], gs
     y = fn.body[2].body[1]
     assert [(astutil.src(a), b) for a, b in astutil.flat_guards(y)] == [("a", False), ("i", False)]
+    # regex tokens
+    from . import regexast, absint
+    toks = regexast.tokens(regexast.parse(r'([a-z/]+.kt):\d+:[ ]+error:[ ]+(.*)'))
+    assert any("error: " in t for _a, _b, t in regexast.literal_runs(toks))
+    # finite-domain evaluation
+    f = ast.parse("def f(c, x):\n    if c is None or x:\n        return 'A'\n    v = ['A'] + (['B'] if g.flag else [])\n    return pick(v)\n").body[0]
+    r = absint.run(f, {"c": 1, "x": False}, {"g.flag": True, "pick()": lambda env, l: absint.Choice(l)})
+    assert isinstance(r, absint.Choice) and r.options == frozenset({"A", "B"})
+    # effect classification on an in-memory module
+    import tempfile, os, shutil
+    from .effects import Effects
+    d = tempfile.mkdtemp(prefix="hsa-selftest-")
+    try:
+        os.makedirs(os.path.join(d, "src"))
+        open(os.path.join(d, "hephaestus.py"), "w").write("x = 1\n")
+        open(os.path.join(d, "src", "__init__.py"), "w").write("")
+        open(os.path.join(d, "src", "m.py"), "w").write(
+            "from copy import deepcopy\n"
+            "def f(a, b):\n    c = deepcopy(a)\n    c.x = 1\n    b.y = 2\n    l = []\n    l.append(b)\n    s = b.items[1:]\n    s[0] = 3\n")
+        rp = repo.Repo(d)
+        E = Effects(rp)
+        effs = {e.text(): sorted(e.tags) for e in E.local(rp.fn("src.m.f"))}
+        assert effs["c.x = 1"] == ["deepfresh"], effs
+        assert effs["b.y = 2"] == ["param:b"], effs
+        assert effs["l.append(b)"] == ["fresh"], effs
+        assert effs["s[0] = 3"] == ["fresh"], effs
+    finally:
+        shutil.rmtree(d, ignore_errors=True)
     print("hsa selftest ok (compiled=%s)" % bool(ok))
     return 0
 
